@@ -27,7 +27,7 @@ def lane(k):
     sh("git -C /repo worktree remove --force %s" % wt)
     if sh("git -C /repo worktree add --detach %s HEAD" % wt).returncode:
         print("lane %d: cannot create worktree" % k); return
-    env = dict(os.environ, VERIF_REPO=wt)
+    env = dict(os.environ, VERIF_REPO=wt, VERIF_DEVRUN="1")     # development runs leave /verif/evidence alone
     try:
         for pid in props[k::lanes]:
             for d in by_prop[pid]:
